@@ -1012,6 +1012,15 @@ func checkExport(c exportCase) harness.Outcome {
 	if r.Err != nil {
 		return fail("building the data threw: %v", r.Err)
 	}
+	if msg := judgeExport(&o, j, r.Value); msg != "" {
+		return fail("%s", msg)
+	}
+	return o
+}
+
+// judgeExport compares Export() and MarshalJSON() of val with the JSON-like tree j it was built from
+// (classes and known-finding exclusions are recorded in o); "" when both agree.
+func judgeExport(o *harness.Outcome, j m15.J, val otto.Value) string {
 	if j.HasHole() {
 		o.Classes = append(o.Classes, "has-hole")
 	}
@@ -1020,12 +1029,12 @@ func checkExport(c exportCase) harness.Outcome {
 		o.Classes = append(o.Classes, "arrays-of-arrays-of-arrays")
 	}
 	var ex interface{}
-	p := guard(func() { ex, _ = r.Value.Export() })
+	p := guard(func() { ex, _ = val.Export() })
 	switch {
 	case p != "" && clash && harness.Known(fNested) && strings.HasPrefix(p, "reflect.Set: value of type"):
 		o.Excluded = append(o.Excluded, fNested)
 	case p != "":
-		return fail("Export panicked: %s", p)
+		return "Export panicked: " + p
 	default:
 		compact := false
 		if j.HasHole() && harness.Known(fHoles) {
@@ -1033,24 +1042,24 @@ func checkExport(c exportCase) harness.Outcome {
 			o.Excluded = append(o.Excluded, fHoles)
 		}
 		if diff := sameExport(j, reflect.ValueOf(ex), "$", compact); diff != "" {
-			return fail("got %#v: %s", ex, diff)
+			return fmt.Sprintf("got %#v: %s", ex, diff)
 		}
 	}
 	// MarshalJSON of the same value: the JSON.stringify tree
 	var mj []byte
 	var mjErr error
-	if p := guard(func() { mj, mjErr = r.Value.MarshalJSON() }); p != "" {
-		return fail("MarshalJSON panicked: %s", p)
+	if p := guard(func() { mj, mjErr = val.MarshalJSON() }); p != "" {
+		return "MarshalJSON panicked: " + p
 	}
 	if want, ok := j.StringifyText(); ok && !(j.K == "num" && want == "null") { // a bare NaN/Infinity has no encoding/json form: an error is acceptable
 		if mjErr != nil {
-			return fail("MarshalJSON failed: %v", mjErr)
+			return fmt.Sprintf("MarshalJSON failed: %v", mjErr)
 		}
 		if diff := m15.SameJSON([]byte(want), mj, false); diff != "" {
-			return fail("MarshalJSON gives %s, the data is %s (%s)", mj, want, diff)
+			return fmt.Sprintf("MarshalJSON gives %s, the data is %s (%s)", mj, want, diff)
 		}
 	}
-	return o
+	return ""
 }
 
 var exportFacet = harness.Register(&harness.Facet[exportCase]{
